@@ -935,11 +935,12 @@ func (m *Machine) step() {
 		m.check(Cmp("bvsle", BV(64, 0), ln), "makeslice: len out of range")
 		m.check(Cmp("bvsle", ln, cp), "makeslice: cap out of range")
 		if !cp.IsC {
-			// a make() whose size is not bounded by 64 KiB elements is an allocation controlled by the input
-			if !m.decide(Cmp("bvule", cp, BV(64, 1<<16))) {
-				m.sol.Assert(Cmp("bvule", cp, BV(64, 1<<26)))
+			// a make() whose byte size can exceed 8 MiB is an allocation controlled by the input (C14: 4 MiB + 16*len)
+			big := Cmp("bvult", BV(64, (8<<20)/esz), cp)
+			if m.decide(big) {
+				m.sol.Assert(Cmp("bvule", cp, BV(64, (128<<20)/esz)))
 				if m.sol.Check() == "sat" {
-					m.reportSite("alloc", m.where(), m.site(), "make() with a size above 64Ki elements controlled by the input", m.stackNames())
+					m.reportSite("alloc", m.where(), m.site(), "make() whose size (above 8 MiB) is controlled by the input", m.stackNames())
 				}
 				panic(pathEnd{"alloc"})
 			}
